@@ -157,9 +157,11 @@ class HSMCertificateV2ElementSGXAttestationKey(HSMCertificateV2Element):
             raise ValueError(f"Invalid key for HSM certificate element {self.name}")
         self._key = bytes.fromhex(element_map["key"])
 
-        if not is_nonempty_hex_string(element_map.get("auth_data")):
+        # The QE authentication data can legitimately be empty
+        auth_data = element_map.get("auth_data")
+        if auth_data != "" and not is_nonempty_hex_string(auth_data):
             raise ValueError(f"Invalid auth data for HSM certificate element {self.name}")
-        self._auth_data = bytes.fromhex(element_map["auth_data"])
+        self._auth_data = bytes.fromhex(auth_data)
 
         if not is_nonempty_hex_string(element_map.get("signature")):
             raise ValueError(f"Invalid signature for HSM certificate element {self.name}")
